@@ -231,6 +231,8 @@ impl OutputFormat for XBin {
         } else {
             read_data_uncompressed(&mut result, &data[o..])?;
         }
+        // Buffer::new pre-allocated 25 rows: a shorter picture must not inherit them
+        result.layers[0].lines.truncate(height as usize);
         crate::crop_loaded_file(&mut result);
 
         Ok(result)
